@@ -53,6 +53,9 @@ def run_rt(prog, knobs, tape, emit, loopback=False, seed=7, driver=None):
         import sc3.base.clock as sclk
         return {
             'outcome': outcome, 'trace': it.trace, 'recvd': recvd,
+            'recv_log': [(t, d.hex()) for t, port, d in w.net.recv_log
+                         if port == main._osc_interface.port]
+            if loopback else [],
             'errors': [r[:3] for r in w.error_logs()],
             'init_time': main._init_time, 'epoch': k.epoch,
             'osc_offset': sclk.SystemClock._elapsed_osc_offset,
